@@ -182,12 +182,14 @@ namespace mtbb {
   template<typename Index, typename Func>
     Func parallel_for(Index first, Index last, Index step,
                       const Func& f) {
+    if (!(first < last)) return f; /* empty range */
     return parallel_for_aux(first, Index(0), (last - first + step - 1) / step, step, f);
   }
 
   template<typename Index, typename Func>
     Func parallel_for(Index first, Index last,
                       const Func& f) {
+    if (!(first < last)) return f; /* empty range */
     return parallel_for_aux(first, Index(0), (last - first), Index(1), f);
   }
 
@@ -235,6 +237,7 @@ namespace mtbb {
   template<typename Index, typename Func>
     Func parallel_for(Index first, Index last, Index step, Index grainsize,
                       const Func& f) {
+    if (!(first < last)) return f; /* empty range */
     return parallel_for_grainsize_aux(first, 0, (last - first + step - 1) / step, step, grainsize, f);
   }
 
